@@ -118,6 +118,7 @@ type d2World struct {
 	px   *d2Proxy
 	dir  string
 	all  []*d2Entry
+	keys map[string]bool // every key a case touched (for the final sweep)
 	zstd bool
 }
 
@@ -131,7 +132,7 @@ func dir2Cfg(r *lib.Run, c cfg, ci int, n int) {
 		r.Inconclusive("dir2: cannot start server: " + err.Error())
 		return
 	}
-	w := &d2World{r: r, c: c, rng: rng, srv: srv, px: px, dir: dir, zstd: c.storage == "zstd"}
+	w := &d2World{r: r, c: c, rng: rng, srv: srv, px: px, dir: dir, zstd: c.storage == "zstd", keys: map[string]bool{}}
 
 	// Every path is visited round-robin (offset by the cfg index and seed so
 	// that size classes rotate over paths), uploads and fetches alternating.
@@ -147,10 +148,7 @@ func dir2Cfg(r *lib.Run, c cfg, ci int, n int) {
 	// Sweep: every file in the directory follows the naming grammar and
 	// belongs to a key written above.
 	srv.Settle(settleMax)
-	keys := map[string]bool{}
-	for _, e := range w.all {
-		keys[e.kind+"/"+e.hash] = true
-	}
+	keys := w.keys
 	files, err := lib.ListFiles(dir)
 	if err == nil {
 		for rel := range files {
@@ -210,6 +208,7 @@ func (w *d2World) violation(key, what string, e *d2Entry, extra map[string]any) 
 // newEntry generates the content for one case.
 func (w *d2World) newEntry(id, path string) *d2Entry {
 	e := &d2Entry{id: id, path: path, kind: d2Kind(path)}
+	defer func() { w.keys[e.kind+"/"+e.hash] = true }()
 	switch e.kind {
 	case "cas":
 		e.data = lib.GenBlob(w.rng, d2Size(w.rng, path), lib.Pick(w.rng, lib.ContentKinds), id)
@@ -453,7 +452,7 @@ func (w *d2World) fetch(id, path string) {
 		case g.BodyErr != nil:
 			o.err = "body: " + g.BodyErr.Error()
 		case g.Status == 200 && g.Header.Get("Content-Encoding") == "zstd":
-			dec, derr := lib.ZstdDecodeBoth(g.Body)
+			dec, derr := decodeBoth(g.Body, len(e.data))
 			if derr != nil {
 				o.err = "returned stream is not legal zstd: " + derr.Error()
 			}
@@ -462,8 +461,22 @@ func (w *d2World) fetch(id, path string) {
 	case "fetch-bs-read", "fetch-bs-read-offset":
 		off := int64(0)
 		if path == "fetch-bs-read-offset" && n > 1 {
+			// The fetch itself happens through the disk API at the offset (a
+			// panic is caught here; inside the in-process gRPC server it would
+			// end the run); the ByteStream read then repeats the offset.
 			off = lib.Pick(w.rng, offsetsFor(w.rng, len(e.data), cs, 0))
 			extra["offset"] = off
+			r.Eval()
+			o1 := apiGet(w.srv.Cache, "cas", e.hash, n, off, false, false)
+			if o1.problem() != "" || !sameBytes(o1.data, e.data[off:]) {
+				what := o1.problem()
+				if what == "" {
+					what = "wrong-bytes"
+				}
+				w.violation("C20:dir2:cas:fetch-answer:"+what, fmt.Sprintf("backend object in the v2 format fetched with Get at offset %d: %s %s", off, short(o1.err+o1.panic), firstDiff(o1.data, e.data[off:])), e, extra)
+				return
+			}
+			r.Count("dir2.fetch.fetch-api-get-offset.ok")
 		}
 		b, err := w.srv.BSRead(ctx, lib.ResBlobs(e.hash, n), off, 0)
 		o.found, o.data = true, b
@@ -476,7 +489,7 @@ func (w *d2World) fetch(id, path string) {
 		o.found = true
 		if err != nil {
 			o.err = err.Error()
-		} else if dec, derr := lib.ZstdDecodeBoth(b); derr != nil {
+		} else if dec, derr := decodeBoth(b, len(e.data)); derr != nil {
 			o.err = "returned stream is not legal zstd: " + derr.Error()
 		} else {
 			o.data = dec
